@@ -34,6 +34,12 @@ type tmpl struct {
 	// call performs the method; it returns errSkip (before touching anything)
 	// when the variant does not apply to the shapes.
 	call func(recv, x mat.Matrix, fv int) error
+	// call2, when non-nil, replaces call: the method takes the same operand
+	// object in two positions (xa and xb are the very same value in the aliased
+	// run; the method applies T() to one of them itself). In the unaliased run
+	// xa and xb are the same view of two different private copies, so a
+	// shortcut keyed on object identity cannot hide behind the twin.
+	call2 func(recv, xa, xb mat.Matrix, fv int) error
 	// ref, when non-nil, is the definition of receiver element (i,j) in terms
 	// of the argument values before the call.
 	ref func(c *refCtx, i, j int) float64
@@ -52,6 +58,10 @@ type tmpl struct {
 	// storage (the ...To extractors of the factorization types); the
 	// destination window is judged against ref only.
 	noOperand bool
+	// thinFv marks fresh-operand variants that the quick tier runs only on
+	// window pairs whose address ranges intersect (the thorough tier runs them
+	// on every pair).
+	thinFv func(fv int) bool
 	// noSamePointer: do not additionally pass the window of identical geometry
 	// as the very same pointer (selfop Solve: m.Solve(m, m) takes the a == b
 	// shortcut and returns the exact identity, while the unaliased twin solves
@@ -156,6 +166,24 @@ type caseRun struct {
 	calls  int64
 	perCls map[string]int
 	benign int64
+	// errCalls: calls whose unaliased twin returned an error; softDiffs: of
+	// those with an undefined-contents error, how many left different bits in
+	// the receiver (don't-care, counted only).
+	errCalls, softDiffs int64
+	quick               bool
+}
+
+// undefinedOnError reports whether the receiver contents are undefined after
+// err: any error other than a finite mat.Condition.
+func undefinedOnError(err error) bool {
+	if err == nil {
+		return false
+	}
+	var cond mat.Condition
+	if errors.As(err, &cond) {
+		return math.IsInf(float64(cond), 0) || math.IsNaN(float64(cond))
+	}
+	return true
 }
 
 func sameBits(a, b []float64) int {
@@ -229,10 +257,13 @@ func (c *caseRun) failNamed(kindOfFailure string, ov *view, trans bool, transNam
 func (c *caseRun) pair(ov *view, trans, ident bool, fv int) {
 	tm, rv, s := c.tm, c.rv, c.s
 	L := s.L
+	if c.quick && tm.thinFv != nil && tm.thinFv(fv) && relation(rv, ov, ident) == relDisjRange {
+		return
+	}
 
 	// Aliased run: everything is a view of the one array `data`.
-	data := make([]float64, 3*L)
-	dataR, dataX := data[L:2*L:2*L], data[2*L:3*L:3*L]
+	data := make([]float64, 4*L)
+	dataR, dataX, dataY := data[L:2*L:2*L], data[2*L:3*L:3*L], data[3*L:4*L:4*L]
 	data = data[:L:L]
 	copy(data, s.fill)
 	recv := rv.build(data)
@@ -245,7 +276,12 @@ func (c *caseRun) pair(ov *view, trans, ident bool, fv int) {
 	if trans {
 		x = transposeOf(x, tm)
 	}
-	a := invoke(func() error { return tm.call(recv, x, fv) })
+	a := invoke(func() error {
+		if tm.call2 != nil {
+			return tm.call2(recv, x, x, fv)
+		}
+		return tm.call(recv, x, fv)
+	})
 	if a.err == errSkip {
 		return
 	}
@@ -273,7 +309,24 @@ func (c *caseRun) pair(ov *view, trans, ident bool, fv int) {
 			}
 		}
 	}
-	u := invoke(func() error { return tm.call(recv2, x2, fv) })
+	u := invoke(func() error {
+		if tm.call2 != nil {
+			copy(dataY, s.fill)
+			x3 := ov.build(dataY)
+			if trans {
+				x3 = transposeOf(x3, tm)
+			}
+			return tm.call2(recv2, x2, x3, fv)
+		}
+		return tm.call(recv2, x2, fv)
+	})
+	if tm.call2 != nil && !u.panicked {
+		if i := sameBits(dataY, s.fill); i >= 0 {
+			c.counts[r][outBad]++
+			c.fail("operand-mutated", ov, trans, ident, fv, r, "unaliased second operand changed at backing index %d: %v -> %v", i, s.fill[i], dataY[i])
+			return
+		}
+	}
 	if u.panicked {
 		c.counts[r][outBad]++
 		c.fail("unaliased-run-panicked", ov, trans, ident, fv, r, "the call on private copies panicked: %s", u.pval)
@@ -348,19 +401,32 @@ func (c *caseRun) pair(ov *view, trans, ident bool, fv int) {
 
 	// Returned normally: storage must be what the unaliased run predicts: the
 	// receiver window holds the unaliased result, every other cell is untouched.
-	firstBad, inRecv := -1, false
+	firstBad, inRecv, softDiff := -1, false, false
 	for i := 0; i < L; i++ {
 		exp := s.fill[i]
 		in := rv.rect&(1<<uint(i)) != 0
 		if in {
-			if u.err != nil {
-				continue // contents undefined when an error is returned
+			if undefinedOnError(u.err) {
+				// Exactly singular (Condition == Inf, "the solve algorithm may have
+				// completed early") or a non-Condition error: contents undefined.
+				if math.Float64bits(data[i]) != math.Float64bits(dataR[i]) {
+					softDiff = true
+				}
+				continue
 			}
+			// A finite Condition error is a warning: "the solve algorithm will
+			// be performed", the result is delivered and must be the same.
 			exp = dataR[i]
 		}
 		if math.Float64bits(data[i]) != math.Float64bits(exp) {
 			firstBad, inRecv = i, in
 			break
+		}
+	}
+	if u.err != nil {
+		c.errCalls++
+		if softDiff {
+			c.softDiffs++
 		}
 	}
 	errMismatch := (a.err == nil) != (u.err == nil) || (a.err != nil && a.err.Error() != u.err.Error())
@@ -434,6 +500,12 @@ func (c *caseRun) finish() {
 	tm, rv := c.tm, c.rv
 	t := c.t
 	t.Count("calls", c.calls)
+	if c.errCalls > 0 {
+		t.Count("calls-with-error-return", c.errCalls)
+	}
+	if c.softDiffs > 0 {
+		t.Count("singular-receiver-bits-differ(dont-care)", c.softDiffs)
+	}
 	var seen []string
 	nontrivial := false
 	for r := rel(0); r < nRel; r++ {
@@ -470,7 +542,7 @@ func gen(g *vlib.G, s *space, tms []*tmpl) {
 			}
 			tm, rv := tm, rv
 			g.Case(fmt.Sprintf("%s(%s) recv=%s", tm.method, tm.pos, rv), func(t *vlib.T) {
-				c := &caseRun{t: t, s: s, tm: tm, rv: rv}
+				c := &caseRun{t: t, s: s, tm: tm, rv: rv, quick: !g.Thorough()}
 				c.run()
 			})
 		}
